@@ -1,7 +1,18 @@
 EXPLANATION = ('C03 (narrow): the snapshot copy-on-write mechanism - ScheduleState::ptr_member<T> and ScheduleState::map_member<K,T> (update, get, operator(), copy, get_ptr, has, find, ==) - instantiated from the real header '
   'with small value types and executed with symbolic contents: replacing a member in the copy never changes what the earlier state returns, untouched members stay shared.')
 BOUNDS = 'maps of 2-3 entries with fixed keys, symbolic values'
-OUTSIDE = 'the larger part of the property: every keyword handler\'s fetch-copy-modify-update discipline, iterateScheduleSection, ScheduleDeck\'s DATES/TSTEP partition; a handler that mutates through a shared pointer (e.g. via the non-const map_member::get) is NOT seen by this check'
+OUTSIDE = 'keyword handlers other than the one executed here (WGRUPCON) - each handler\'s fetch-copy-modify-update discipline would need its own run -, iterateScheduleSection, ScheduleDeck\'s DATES/TSTEP partition, look-ahead into later blocks'
 ASSUMPTIONS = ['std::unordered_map rehash policy modelled (grow when elements exceed buckets)', 'doubles as reals']
+HT = ['opm/input/eclipse/Schedule/%s.cpp' % n for n in ('Schedule', 'ScheduleState', 'HandlerContext', 'ScheduleTypes', 'RFTConfig', 'RSTConfig', 'Events', 'ScheduleGrid', 'CompletedCells', 'eval_uda', 'SummaryState', 'Tuning',
+      'OilVaporizationProperties', 'GasLiftOpt', 'WriteRestartFileEvents', 'VFPProdTable', 'VFPInjTable', 'ScheduleStatic', 'ScheduleDeck', 'ScheduleBlock', 'MessageLimits')] + [
+      'opm/input/eclipse/Schedule/Well/%s.cpp' % n for n in ('Well', 'NameOrder', 'WListManager', 'WList', 'WellMatcher', 'Connection', 'WDFAC', 'WINJMULT', 'WVFPDP', 'WVFPEXP', 'WellBrineProperties', 'WellConnections',
+      'WellEconProductionLimits', 'WellEnums', 'WellFoamProperties', 'WellInjectionProperties', 'WellMICPProperties', 'WellPolymerProperties', 'WellProductionProperties', 'WellTracerProperties', 'FilterCake', 'PAvg', 'WellTestConfig', 'injection')] + [
+      'opm/input/eclipse/Schedule/Group/%s.cpp' % n for n in ('GuideRateConfig', 'GuideRateModel', 'Group', 'GConSale', 'GConSump', 'GroupEconProductionLimits', 'GTNode')] + [
+      'opm/input/eclipse/Schedule/MSW/WellSegments.cpp', 'opm/input/eclipse/Schedule/MSW/Segment.cpp', 'opm/input/eclipse/Schedule/Action/ActionResult.cpp', 'opm/input/eclipse/Schedule/Action/WGNames.cpp', 'opm/input/eclipse/Schedule/Action/Actions.cpp',
+      'opm/input/eclipse/Deck/DeckKeyword.cpp', 'opm/input/eclipse/Deck/DeckRecord.cpp', 'opm/input/eclipse/Deck/DeckItem.cpp', 'opm/input/eclipse/Deck/UDAValue.cpp', 'opm/input/eclipse/Units/UnitSystem.cpp', 'opm/input/eclipse/Units/Dimension.cpp',
+      'opm/input/eclipse/EclipseState/Phase.cpp', 'opm/input/eclipse/Parser/ParseContext.cpp', 'opm/input/eclipse/Parser/ErrorGuard.cpp', 'opm/common/utility/String.cpp', 'opm/common/utility/TimeService.cpp', 'opm/common/utility/shmatch.cpp',
+      'opm/common/OpmLog/KeywordLocation.cpp', 'opm/input/eclipse/EclipseState/Runspec.cpp'] + ['opm/input/eclipse/Schedule/UDQ/%s.cpp' % n for n in ('UDQASTNode', 'UDQActive', 'UDQAssign', 'UDQConfig', 'UDQContext', 'UDQDefine', 'UDQEnums', 'UDQFunction', 'UDQFunctionTable', 'UDQInput', 'UDQParams', 'UDQParser', 'UDQSet', 'UDQState', 'UDQToken', 'UDT')]
 def jobs(tier):
-    return [dict(name='cow', src='h_cow.cpp', defs={}, entry='h_ptr_member,h_map_member', tus=[], fp='real', loopmax=2000, maxsteps=4000000)]
+    return [dict(name='cow', src='h_cow.cpp', defs={}, entry='h_ptr_member,h_map_member', tus=[], fp='real', loopmax=2000, maxsteps=4000000),
+            dict(name='handler_wgrupcon', src='h_handlers.cpp', defs={}, entry='h_wgrupcon', tus=HT, fp='real', loopmax=100000, maxsteps=400000000, timeout=1500, opts=['--ctors'],
+                 bounds='two report steps sharing two wells; WGRUPCON for one well at the later step with symbolic guide rate and scaling factor')]
